@@ -57,6 +57,7 @@ def run_prop(ctx: core.Ctx) -> None:
         if k_ not in seen_p:
             seen_p.add(k_)
             uniq.append(pr)
+    uniq.append([])      # the empty script: a valid model with no variables at all
     long_ = sc.judge_programs(ctx, uniq, 'long')
     total += len(long_)
     sc.replay(ctx, long_, checks=checks, namemaps=(qn if quick else tn)[:2], what='composed-long', layouts=layouts)
